@@ -108,8 +108,10 @@ def run(chk, cases, rng, nvalues, budget, label):
             elif "exc" not in out:
                 if "get_exc" in out or str(out.get("reenc", "")).startswith("EXC:"):
                     chk.violation("reenc-%d-%d" % (j["id"], k), dict(case, kind="decoded message cannot be read back or re-encoded"))
-                elif "fix" in out and "exc" in out["fix"]:
+                elif "fix" in out and "exc" in out["fix"] and out["fix"]["exc"] != "ProphyError":
                     chk.violation("fixpoint-%d-%d" % (j["id"], k), dict(case, kind="decoding the re-encoding raised %s" % out["fix"]["exc"]))
+                # a ProphyError from decoding the re-encoding is judged inside Coq (fixpoint_exc_case): it is outside the
+                # claim exactly when the decoded message has a greedy tail that does not end aligned
                 elif out.get("elements", 0) > len(h) // 2 + 4096:
                     chk.violation("alloc-%d-%d" % (j["id"], k), dict(case, kind="element count out of proportion to the input"))
             if out.get("time", 0) > SLOW:
@@ -130,6 +132,8 @@ def run(chk, cases, rng, nvalues, budget, label):
             b = lambda x: "true" if x else "false"  # noqa: E731
             fx = " ++ fixpoint_case %s %s %s %s %s" % (tt, ov, b(out["fix"].get("same_value")), b(out["fix"].get("same_bytes")),
                                                         b(out["fix"].get("consumed_all")))
+        if "exc" not in out and "get_exc" not in out and "fix" in out and out["fix"].get("exc") == "ProphyError":
+            fx = " ++ fixpoint_exc_case %s %s" % (tt, ov)
         return "(%d, %d, model_decode_case %s %s %s %s %s%s)" % (i, k, "LE" if e == "<" else "BE", tt, codec.hex_coq(h), obs, ov, fx)
 
     work = common.scratch("c06")
@@ -137,6 +141,13 @@ def run(chk, cases, rng, nvalues, budget, label):
     bad = codec.eval_case_files(files)
     for i, k, r in bad:
         e, h = meta[i][k]
+        if 9100000091 in r:
+            chk.violation("fixpoint-%d-%d" % (i, k),
+                          {"kind": "decoding the re-encoding raised ProphyError although the decoded message has no unaligned greedy tail",
+                           "schema_text": S.to_prophy(cases[i][2]), "schema": cases[i][2], "root": cases[i][2][1],
+                           "endianness": e, "data": h, "observed": dres[i]["decode"][k], "result": r[:10]})
+            if r[0] == 9100000091:
+                continue
         if 92 in r:
             chk.violation("fixpoint-%d-%d" % (i, k),
                           {"kind": "decode of the re-encoding is not a fixpoint (flags same_value, same_bytes, consumed_all after 92)",
